@@ -42,6 +42,42 @@ def check(ctx):
     rr = ctx.body_or_fail("C06.c", lambda n: n.endswith("react_commands::revoke_reactor"), "revoke_reactor")
     if rr is None:
         return
+    # every entry of the token is dispatched: inside the loop over the token's entries no path reaches the next iteration
+    # (or leaves the loop) without passing the match on the entry's kind (a `continue` / early-out in front of the match
+    # leaves that entry's registration in place)
+    tok_loops = [L for L in LP.find_loops(rr) if L.driver is not None]
+    disp = []
+    for (sb, place, tg, ow) in lib.discr_switches(rr):
+        res = lib.enum_arms(rr, prog, sb)
+        if res and res[2].endswith("::ReactorType"):
+            disp.append((sb, place))
+    okd = False
+    wpath = None
+    for L in tok_loops:
+        inside = [sb for sb, _ in disp if sb in L.blocks]
+        if not inside:
+            continue
+        okd = True
+        # paths from the Some-arm back to the header, or out of the loop, that avoid every dispatch switch
+        seen = set()
+        st = [(L.some_t, [L.some_t])]
+        while st and wpath is None:
+            x, p = st.pop()
+            if x in seen or x in inside:
+                continue
+            seen.add(x)
+            for s_ in rr.succ[x]:
+                if s_ == L.header or (s_ not in L.blocks and rr.can_reach_return(s_)):
+                    wpath = p + [s_]
+                    break
+                if s_ in L.blocks:
+                    st.append((s_, p + [s_]))
+        break
+    ctx.check(okd and wpath is None, "C06.a", "revoke_reactor:every-token-entry-dispatched", "%s:%d" % (rr.file, rr.line),
+              "every iteration over the token's entries reaches the match on the entry's kind",
+              "an entry of the revoke token can be skipped before the match on its kind (its registration stays in place)" if okd
+              else "no loop over the token's entries with a match on the entry kind found in revoke_reactor",
+              lib.render_path(rr, wpath) if wpath else None)
     # the revoke path: functions reachable from revoke_reactor
     path_fns = prog.reachable_bodies([rr], depth=4)
     for f in path_fns:
